@@ -48,7 +48,7 @@ Definition unescape_bs (f : nat) (r : text) : option text :=
           | [] => None
           | b :: r3 =>
             if b =? 123 then
-              match unescape_u r3 8 0 with
+              match unescape_u r3 7 0 with
               | Some (cp, r4) => match unescape f r4 with Some s => Some (cp :: s) | None => None end
               | None => None
               end
@@ -117,7 +117,7 @@ Proof.
     + destruct (e =? 117); [|discriminate].
       destruct r2 as [|b r3]; [discriminate|]. destruct (b =? 123); [|discriminate].
       inversion Hr2; subst.
-      destruct (unescape_u r3 8 0) as [[cp r4]|] eqn:E; [|discriminate].
+      destruct (unescape_u r3 7 0) as [[cp r4]|] eqn:E; [|discriminate].
       apply unescape_u_scalar in E; [|assumption]. destruct E as [E1 E2].
       exact (Simple cp r4 s E2 E1 H).
   - eapply Simple; eauto.
@@ -192,7 +192,7 @@ Lemma is_scalar_le : forall c, is_scalar c = true -> c <= 0x10FFFF.
 Proof. unfold is_scalar. intros. lia. Qed.
 
 Lemma unescape_u_hex_digits : forall c rest, is_scalar c = true ->
-  unescape_u (hex_digits c ++ 125 :: rest) 8 0 = Some (c, rest).
+  unescape_u (hex_digits c ++ 125 :: rest) 7 0 = Some (c, rest).
 Proof.
   intros c rest Hc. unfold hex_digits.
   pose proof (hex_rev_len 6 c) as Hlen. pose proof (hex_rev_lt 6 c) as Hlt.
@@ -201,9 +201,9 @@ Proof.
   { rewrite hexval_rev. apply hex_rev_val. change (16 ^ N.of_nat 6) with 16777216. lia. }
   set (ds := rev (hex_rev 6 c)) in *.
   assert (Hl : (length ds <= 6)%nat) by (subst ds; rewrite rev_length; exact Hlen).
-  replace 8%nat with (length ds + (8 - length ds))%nat by lia.
+  replace 7%nat with (length ds + (7 - length ds))%nat by lia.
   rewrite unescape_u_digits; [|subst ds; apply Forall_rev; exact Hlt|rewrite Hv; lia].
-  rewrite Hv. destruct (8 - length ds)%nat eqn:E; [lia|].
+  rewrite Hv. destruct (7 - length ds)%nat eqn:E; [lia|].
   cbn [unescape_u]. rewrite N.eqb_refl, Hc. reflexivity.
 Qed.
 
